@@ -56,3 +56,18 @@ Definition marshal (sb : sbuilder) (hello : list Z) (planned : bool) (idx : Z) (
     | SBFlight => Ok (as_packed hello frames ping, bs, us)
     end
   end.
+
+(* validateFrameBuilder, called by UTransport.dial (fixes/C09-validate-random-frames-at-dial.patch):
+   every entry of a randomizing builder is checked before a connection exists *)
+Fixpoint check_all (specs : list rf) : res unit :=
+  match specs with
+  | [] => Ok tt
+  | p :: r => _ <- check_bounds p ;; check_all r
+  end.
+
+Definition dial_check (sb : sbuilder) : res unit :=
+  match sb with
+  | SBRandom [] => Err 7
+  | SBRandom specs => check_all specs
+  | _ => Ok tt
+  end.
